@@ -104,6 +104,51 @@ let () = iter_lines (fun line ->
             (if out.M.out_still then "still" else "anim") (zs out.M.out_W) (zs out.M.out_H) (zs out.M.out_loop)
             (Stdlib.List.length recs) (String.concat ";" recs)
             (if mode = "st" then "" else String.concat "," (Stdlib.List.map (fun (c, _) -> show c) pb))))
+  | "encr" :: mode :: w :: h :: loop :: kmin :: kmax :: ll :: mixed :: q :: meta :: simple :: _n :: rest ->
+    (* AddFrame (A ...) mixed with pre-encoded frames (R x y iw ih dur bn db pix) *)
+    let rec ops r = match r with
+      | "A" :: iw :: ih :: dur :: obg :: okey :: oa :: ob :: oc :: fa :: fb :: fc :: fk :: pix :: tl ->
+        let (os, orc, es) = ops tl in
+        (M.OAdd ({ M.iw = z_of_string iw; ih = z_of_string ih; ipix = pixels pix }, z_of_string dur) :: os,
+         { M.oc_bg = b obg; oc_key = b okey; oc_alt_a = b oa; oc_alt_b = b ob; oc_alt_c = b oc } :: orc,
+         { M.ef_a = b fa; ef_b = b fb; ef_c = b fc; ef_k = b fk } :: es)
+      | "R" :: x :: y :: iw :: ih :: dur :: bn :: db :: pix :: tl ->
+        let (os, orc, es) = ops tl in
+        (M.ORaw { M.m_x = z_of_string x; m_y = z_of_string y;
+                  m_img = { M.iw = z_of_string iw; ih = z_of_string ih; ipix = pixels pix };
+                  m_lossy = false; m_blend_none = b bn; m_dispose_bg = b db; m_dur = z_of_string dur } :: os,
+         { M.oc_bg = false; oc_key = false; oc_alt_a = false; oc_alt_b = false; oc_alt_c = false } :: orc,
+         M.no_fail :: es)
+      | [] -> ([], [], [])
+      | _ -> failwith "op fields" in
+    let (os, orc, es) = ops rest in
+    let oarr = Array.of_list orc and earr = Array.of_list es in
+    let dflt = { M.oc_bg = false; oc_key = false; oc_alt_a = false; oc_alt_b = false; oc_alt_c = false } in
+    let oracle n = let i = int_of_nat n in if i < Array.length oarr then oarr.(i) else dflt in
+    let fails n = let i = int_of_nat n in if i < Array.length earr then earr.(i) else M.no_fail in
+    let opts = { M.eo_loop = z_of_string loop; eo_kmin = z_of_string kmin; eo_kmax = z_of_string kmax;
+                 eo_lossless = b ll; eo_mixed = b mixed; eo_quality = z_of_string q } in
+    (match M.new_encoder (z_of_string w) (z_of_string h) opts with
+     | None -> print_endline "I nil"
+     | Some st0 ->
+       let st = ref st0 and rej = ref [] in
+       Stdlib.List.iteri (fun i o ->
+         let (st1, ok) = M.step_op M.repaired M.max_frames oracle fails !st o in
+         st := st1; if not ok then rej := string_of_int i :: !rej) os;
+       let rejs = String.concat "," (Stdlib.List.rev !rej) in
+       (match M.close (b meta) (b simple) !st with
+        | None -> Printf.printf "I rej:%s noframes\n" rejs
+        | Some out ->
+          let pb = M.playback id id M.repaired out in
+          let show = if mode = "al" then canvas_al else canvas_px in
+          let recs = Stdlib.List.map (fun r ->
+            Printf.sprintf "%s,%s,%s,%s,%s,%s,%s,%s"
+              (zs r.M.m_x) (zs r.M.m_y) (zs r.M.m_img.M.iw) (zs r.M.m_img.M.ih)
+              (b2s r.M.m_blend_none) (b2s r.M.m_dispose_bg) (zs r.M.m_dur) (b2s r.M.m_lossy)) out.M.out_recs in
+          Printf.printf "I rej:%s %s %s %s %s %d %s %s\n" rejs
+            (if out.M.out_still then "still" else "anim") (zs out.M.out_W) (zs out.M.out_H) (zs out.M.out_loop)
+            (Stdlib.List.length recs) (String.concat ";" recs)
+            (if mode = "st" then "" else String.concat "," (Stdlib.List.map (fun (c, _) -> show c) pb))))
   | ["qmd"; q] -> Printf.printf "I %s\n" (zs (M.quality_to_max_diff (z_of_string q)))
   | ["san"; kmin; kmax] ->
     let (a, c) = M.sanitize_k (z_of_string kmin) (z_of_string kmax) in
